@@ -59,11 +59,11 @@ class MagicMemoryFL( Component ):
     return ret
 
   def read_mem( s, addr, size ):
-    assert len(s.mem) > (addr + size)
+    assert len(s.mem) >= (addr + size)
     return s.mem[ addr : addr + size ]
 
   def write_mem( s, addr, data ):
-    assert len(s.mem) > (addr + len(data))
+    assert len(s.mem) >= (addr + len(data))
     s.mem[ addr : addr + len(data) ] = data
 
   def line_trace( s ):
